@@ -73,6 +73,9 @@ def build(cfg):
     reset_clock()
     uni, L, delay, reward, rates, fees, nbars = cfg
     threshold = 0.0
+    tick = uni.endswith(":tick")
+    if tick:
+        uni = uni[:-5]
     lots = uni.endswith(":lots")
     if lots:
         uni = uni[:-5]
@@ -100,7 +103,7 @@ def build(cfg):
     tr = Transmitter(list(G))
     tr.add_events(evs)
     sink = []
-    rec = Rec(sink)
+    rec = RecTick(sink) if tick else Rec(sink)
     bf = BrokerFees(markup=0.01 if rates else 0.0, interest_rate=RATE, proportional=(1.0 / 64 if fees else 0.0), fixed=(1.0 if fees else 0.0))
     env = TradingEnv(BoxPortfolio(cs, -1.0, 1.5, margin=threshold) if not lots else BoxPortfolio(cs, -3.0, 3.0, as_weights=False), transmitter=tr, state=rec, latency=L, steps_delay=delay,
                      initial_cash=cash, broker_fees=bf, reward=make_reward(reward))
@@ -350,6 +353,11 @@ def units(tier):
     for delay in (0, 1):
         for reward in ("simple", "log"):
             out.append(("spot+fut:thr", 0, delay, reward, True, True, 6))
+    # a state that values the account at every quote: valuations fall between the equally stamped quotes of one bar
+    for uni in ("spot+fut:tick", "mult+es:tick"):
+        for L in (0, 30):
+            for delay in (0, 1):
+                out.append((uni, L, delay, "simple", L == 30, L == 30, 5))
     # extreme single-step returns (|log return| > 2): rewards documented as unclipped must not be clipped
     for delay in (0, 1):
         for reward in REWARDS:
